@@ -90,7 +90,12 @@ func c05pairs(m map[uint64]uint64) string {
 
 func c05h3err(err error) string {
 	if err == io.EOF {
-		return "err:eof"
+		return "err:eof" // clean end: the stream ended at a frame boundary
+	}
+	if err == io.ErrUnexpectedEOF {
+		// the repaired fork (/repo 690148e, RFC 9114 7.1): the stream ended inside a frame.
+		// quic-go v0.48 reports io.EOF here; c05refView maps the fork's answer to the reference's.
+		return "err:ueof"
 	}
 	msg := err.Error()
 	switch {
@@ -104,6 +109,18 @@ func c05h3err(err error) string {
 		return "err:value"
 	}
 	return "err:other"
+}
+
+// c05refView is what the pinned reference (quic-go v0.48.2, whose frame parser the fork copies)
+// reports where the fork reports r: identical, except that the reference does not tell a truncated
+// frame from a clean end (io.EOF in both cases). This is the ONLY documented difference; every other
+// class must be identical.
+func c05refView(r string) string {
+	switch r {
+	case "err:ueof":
+		return "err:eof"
+	}
+	return r
 }
 
 func c05renderH3(f frame, consumed int) string {
@@ -370,7 +387,7 @@ func TestVerif_C05_h3frames(t *testing.T) {
 			fmt.Sprintf("settingsFrame.Append dg=%v ec=%v other=%s -> %s", sf.Datagram, sf.ExtendedConnect, c05pairs(sf.Other), c05hex(out)))
 	}
 	s.Finish()
-	hs.Require(t, "ok-data", "ok-headers", "ok-settings", "err:eof", "err:reserved", "err:dup", "err:value", "err:settings-size",
+	hs.Require(t, "ok-data", "ok-headers", "ok-settings", "err:eof", "err:ueof", "err:reserved", "err:dup", "err:value", "err:settings-size",
 		"direct-ok", "direct-err:eof", "direct-err:dup", "direct-err:settings-size", "append-data", "append-settings",
 		"settings-dup", "settings-badvalue", "settings-trunc")
 }
